@@ -66,7 +66,7 @@ Qed.
 
 Definition untouched_statement : Prop :=
   In "jira_checks" handler_unconditional /\
-  exists pre post, handler_calls = pre ++ "jira_checks" :: post /\
+  exists pre post, handler_calls = (pre ++ "jira_checks" :: post)%list /\
     ~ In "jira_checks" post /\
     forall step, In step repo_writing_steps -> ~ In step pre /\ In step post.
 
@@ -77,7 +77,7 @@ Fixpoint split_at (x : string) (l : list string) : option (list string * list st
               else match split_at x t with Some (a, b) => Some (y :: a, b) | None => None end
   end.
 
-Lemma split_at_some x l a b : split_at x l = Some (a, b) -> l = a ++ x :: b.
+Lemma split_at_some x l a b : split_at x l = Some (a, b) -> l = (a ++ x :: b)%list.
 Proof.
   revert a b. induction l as [|y t IH]; cbn; intros a b H; [discriminate H|].
   destruct (String.eqb_spec y x) as [->|Hn].
@@ -100,3 +100,767 @@ Proof.
       * apply mem_str_In.
         repeat (destruct Hs as [<-|Hs]; [vm_compute; reflexivity|]). contradiction.
 Qed.
+
+(* ================================================================== the two regular expressions *)
+
+Definition lf_free (v : string) : Prop := has_char LF v = false.
+
+Lemma bool_eq_iff (a b : bool) : (a = true <-> b = true) -> a = b.
+Proof. destruct a, b; intros [H1 H2]; try reflexivity; [symmetry; apply H1 | apply H2]; reflexivity. Qed.
+
+Lemma has_char_suffix c a b : has_char c (a ++ b) = false -> has_char c b = false.
+Proof. rewrite has_char_app. intro H. apply orb_false_iff in H as [_ H]. exact H. Qed.
+
+Lemma has_char_tail c d b : has_char c (String d b) = false -> has_char c b = false.
+Proof. cbn [has_char]. intro H. apply orb_false_iff in H as [_ H]. exact H. Qed.
+
+Lemma at_end_lf_free r : lf_free r -> at_end r = is_empty r.
+Proof.
+  unfold lf_free. destruct r as [|c [|d t]]; cbn [at_end is_empty]; intro H; try reflexivity.
+  cbn [has_char] in H. apply orb_false_iff in H as [H _]. exact H.
+Qed.
+
+Lemma scan_number_some s r : scan_number s = Some r ->
+  exists d, s = d ++ r /\ is_num d = true /\ stops is_digit r = true.
+Proof.
+  unfold scan_number. destruct (span is_digit s) as [d r'] eqn:E.
+  destruct (is_empty d) eqn:Hd; intro H; [discriminate H|]. injection H as <-.
+  apply span_spec in E as (-> & Hall & Hst). exists d. repeat split; try assumption.
+  unfold is_num. rewrite Hd, Hall. reflexivity.
+Qed.
+
+Lemma scan_number_app d r : is_num d = true -> stops is_digit r = true -> scan_number (d ++ r) = Some r.
+Proof.
+  intros Hd Hr. unfold scan_number. unfold is_num in Hd. apply andb_true_iff in Hd as [Hne Hall].
+  rewrite (span_app is_digit d r Hall Hr). apply negb_true_iff in Hne. rewrite Hne. reflexivity.
+Qed.
+
+Lemma scan_number_all d : is_num d = true -> scan_number d = Some "".
+Proof. intro H. pose proof (scan_number_app d "" H eq_refl) as P. rewrite sapp_nil_r in P. exact P. Qed.
+
+Lemma scan_lit_some c s r : scan_lit c s = Some r -> s = String c r.
+Proof.
+  destruct s as [|d t]; cbn [scan_lit]; intro H; [discriminate H|].
+  destruct (Ascii.eqb_spec d c) as [->|]; [|discriminate H]. injection H as <-. reflexivity.
+Qed.
+
+Lemma scan_xyz_some s r : scan_xyz s = Some r ->
+  exists x y z, number x /\ number y /\ number z /\
+                s = x ++ "." ++ y ++ "." ++ z ++ r /\ stops is_digit r = true.
+Proof.
+  unfold scan_xyz, bind. intro H.
+  destruct (scan_number s) as [r1|] eqn:E1; [|discriminate H].
+  destruct (scan_lit "." r1) as [r2|] eqn:E2; [|discriminate H].
+  destruct (scan_number r2) as [r3|] eqn:E3; [|discriminate H].
+  destruct (scan_lit "." r3) as [r4|] eqn:E4; [|discriminate H].
+  apply scan_number_some in E1 as (x & Es & Hx & _). apply scan_lit_some in E2.
+  apply scan_number_some in E3 as (y & Er2 & Hy & _). apply scan_lit_some in E4.
+  apply scan_number_some in H as (z & Er4 & Hz & Hst). subst s r1 r2 r3 r4.
+  exists x, y, z. repeat split; assumption.
+Qed.
+
+Lemma stops_dot r : stops is_digit (String "." r) = true.
+Proof. reflexivity. Qed.
+
+Lemma scan_xyz_app x y z r : number x -> number y -> number z -> stops is_digit r = true ->
+  scan_xyz (x ++ "." ++ y ++ "." ++ z ++ r) = Some r.
+Proof.
+  intros Hx Hy Hz Hr. unfold scan_xyz, bind.
+  change (x ++ "." ++ y ++ "." ++ z ++ r) with (x ++ String "." (y ++ String "." (z ++ r))).
+  rewrite (scan_number_app x _ Hx (stops_dot _)). cbn [scan_lit]. rewrite Ascii.eqb_refl.
+  rewrite (scan_number_app y _ Hy (stops_dot _)). cbn [scan_lit]. rewrite Ascii.eqb_refl.
+  apply scan_number_app; assumption.
+Qed.
+
+Lemma number_zero : number "0".
+Proof. reflexivity. Qed.
+
+(* vfilter accepts exactly the names x.y.z and x.y.z.0 of the grammar *)
+Lemma vfilter_unsuffixed s : lf_free s -> (vfilter_match s = true <-> unsuffixed s).
+Proof.
+  intro Hlf. unfold vfilter_match. split.
+  - destruct (scan_xyz s) as [r|] eqn:E; [|discriminate].
+    apply scan_xyz_some in E as (x & y & z & Hx & Hy & Hz & -> & _).
+    assert (Hr : lf_free r).
+    { unfold lf_free in *. apply has_char_suffix, has_char_tail, has_char_suffix, has_char_tail, has_char_suffix in Hlf.
+      exact Hlf. }
+    intro H. apply orb_true_iff in H as [H|H].
+    + destruct (strip_prefix ".0" r) as [r'|] eqn:S; [|discriminate H].
+      apply strip_prefix_some in S. subst r.
+      assert (Hr' : lf_free r') by (unfold lf_free in *; apply (has_char_suffix LF ".0" r'); exact Hr).
+      rewrite (at_end_lf_free r' Hr') in H. apply is_empty_true in H. subst r'.
+      exists [x; y; z; "0"]. split; [|right; split; reflexivity].
+      exact (V4 x y z "0" Hx Hy Hz number_zero).
+    + rewrite (at_end_lf_free r Hr) in H. apply is_empty_true in H. subst r.
+      exists [x; y; z]. split; [|left; reflexivity].
+      rewrite sapp_nil_r. exact (V3 x y z Hx Hy Hz).
+  - intros (cs & Hv & Hl). inversion Hv as [x Hx|x y Hx Hy|x y z Hx Hy Hz|x y z n Hx Hy Hz Hn]; subst;
+      cbn [List.length nth_error] in Hl; destruct Hl as [Hl|[Hl Hn0]]; try discriminate Hl.
+    + rewrite <- (sapp_nil_r z). rewrite (scan_xyz_app x y z "" Hx Hy Hz eq_refl). reflexivity.
+    + injection Hn0 as ->.
+      change (x ++ "." ++ y ++ "." ++ z ++ "." ++ "0") with (x ++ "." ++ y ++ "." ++ z ++ ".0").
+      rewrite (scan_xyz_app x y z ".0" Hx Hy Hz eq_refl). reflexivity.
+Qed.
+
+(* hf_filter accepts exactly the names x.y.z.n of the grammar *)
+Lemma hf_filter_hotfix s : lf_free s -> (hf_filter_match s = true <-> hotfix_version s).
+Proof.
+  intro Hlf. unfold hf_filter_match, bind. split.
+  - destruct (scan_xyz s) as [r|] eqn:E; [|discriminate].
+    destruct (scan_lit "." r) as [r2|] eqn:E2; [|discriminate].
+    destruct (scan_number r2) as [r3|] eqn:E3; [|discriminate].
+    apply scan_xyz_some in E as (x & y & z & Hx & Hy & Hz & -> & _).
+    apply scan_lit_some in E2. apply scan_number_some in E3 as (n & Er2 & Hn & _). subst r r2.
+    assert (Hr : lf_free r3).
+    { unfold lf_free in *.
+      apply has_char_suffix, has_char_tail, has_char_suffix, has_char_tail, has_char_suffix, has_char_tail,
+            has_char_suffix in Hlf. exact Hlf. }
+    intro H. rewrite (at_end_lf_free r3 Hr) in H. apply is_empty_true in H. subst r3.
+    exists [x; y; z; n]. split; [|reflexivity]. rewrite sapp_nil_r. exact (V4 x y z n Hx Hy Hz Hn).
+  - intros (cs & Hv & Hl). inversion Hv as [x Hx|x y Hx Hy|x y z Hx Hy Hz|x y z n Hx Hy Hz Hn]; subst;
+      cbn [List.length] in Hl; try discriminate Hl.
+    change (x ++ "." ++ y ++ "." ++ z ++ "." ++ n) with (x ++ "." ++ y ++ "." ++ z ++ String "." n).
+    rewrite (scan_xyz_app x y z (String "." n) Hx Hy Hz eq_refl). cbn [scan_lit]. rewrite Ascii.eqb_refl.
+    rewrite (scan_number_all n Hn). reflexivity.
+Qed.
+
+(* the recognisers of the specification are exact *)
+Lemma unsuffixedb_iff v : unsuffixedb v = true <-> unsuffixed v.
+Proof.
+  unfold unsuffixedb, unsuffixed. split.
+  - destruct (spec_version v) as [cs|] eqn:E; [|discriminate].
+    apply spec_version_iff in E. intro H.
+    destruct cs as [|a [|b [|c [|d [|e r]]]]]; try discriminate H.
+    + exists [a; b; c]. split; [exact E | left; reflexivity].
+    + apply String.eqb_eq in H. subst d. exists [a; b; c; "0"]. split; [exact E | right; split; reflexivity].
+  - intros (cs & Hv & Hl). apply spec_version_iff in Hv. rewrite Hv.
+    destruct cs as [|a [|b [|c [|d [|e r]]]]]; cbn [List.length nth_error] in Hl;
+      destruct Hl as [Hl|[Hl Hn]]; try discriminate Hl; try reflexivity.
+    injection Hn as ->. reflexivity.
+Qed.
+
+Lemma hotfix_versionb_iff v : hotfix_versionb v = true <-> hotfix_version v.
+Proof.
+  unfold hotfix_versionb, hotfix_version. split.
+  - destruct (spec_version v) as [cs|] eqn:E; [|discriminate].
+    apply spec_version_iff in E. intro H.
+    destruct cs as [|a [|b [|c [|d [|e r]]]]]; try discriminate H. exists [a; b; c; d]. split; [exact E | reflexivity].
+  - intros (cs & Hv & Hl). apply spec_version_iff in Hv. rewrite Hv.
+    destruct cs as [|a [|b [|c [|d [|e r]]]]]; cbn [List.length] in Hl; try discriminate Hl. reflexivity.
+Qed.
+
+Lemma vfilter_eq s : lf_free s -> vfilter_match s = unsuffixedb s.
+Proof. intro H. apply bool_eq_iff. rewrite (vfilter_unsuffixed s H), unsuffixedb_iff. tauto. Qed.
+
+Lemma hf_filter_eq s : lf_free s -> hf_filter_match s = hotfix_versionb s.
+Proof. intro H. apply bool_eq_iff. rewrite (hf_filter_hotfix s H), hotfix_versionb_iff. tauto. Qed.
+
+(* what "$" does in the code: one final line feed is not seen *)
+Lemma at_end_snoc r : lf_free r -> at_end (r ++ String LF "") = at_end r.
+Proof.
+  unfold lf_free. destruct r as [|c [|d t]]; cbn [append at_end has_char]; intro H; try reflexivity.
+  apply orb_false_iff in H as [H _]. rewrite H. reflexivity.
+Qed.
+
+(* ================================================================== Python sets *)
+
+Lemma In_to_set x l : In x (to_set l) <-> In x l.
+Proof.
+  induction l as [|y t IH]; [tauto|]. cbn [to_set]. destruct (mem_str y t) eqn:E.
+  - rewrite IH. split; [intro H; right; exact H|]. intros [<-|H]; [apply mem_str_In; exact E | exact H].
+  - cbn [In]. rewrite IH. tauto.
+Qed.
+
+Lemma mem_to_set x l : mem_str x (to_set l) = mem_str x l.
+Proof. apply bool_eq_iff. rewrite !mem_str_In. apply In_to_set. Qed.
+
+Lemma set_eqb_iff a b : set_eqb a b = true <-> (forall x, In x a <-> In x b).
+Proof.
+  unfold set_eqb. rewrite andb_true_iff, !forallb_forall. split.
+  - intros [H1 H2] x. split; intro H; apply mem_str_In; [apply H1 | apply H2]; exact H.
+  - intro H. split; intros x Hx; apply mem_str_In; apply H; exact Hx.
+Qed.
+
+Lemma to_set_all_eq v rest : forallb (String.eqb v) rest = true -> to_set (v :: rest) = [v].
+Proof.
+  induction rest as [|y t IH]; [reflexivity|]. cbn [forallb]. intro H.
+  apply andb_true_iff in H as [Hy Ht]. apply String.eqb_eq in Hy. subst y.
+  change (to_set (v :: v :: t)) with (if mem_str v (v :: t) then to_set (v :: t) else v :: to_set (v :: t)).
+  replace (mem_str v (v :: t)) with true by (symmetry; apply mem_str_In; left; reflexivity).
+  exact (IH Ht).
+Qed.
+
+Lemma to_set_single_inv l v : to_set l = [v] -> forall x, In x l -> x = v.
+Proof. intros H x Hx. apply In_to_set in Hx. rewrite H in Hx. destruct Hx as [<-|[]]. reflexivity. Qed.
+
+Lemma hotfix_versionb_nonempty v : hotfix_versionb v = true -> is_empty v = false.
+Proof. destruct v; [vm_compute; discriminate | reflexivity]. Qed.
+
+Lemma hf_target_eq tv : Forall lf_free tv -> hf_target (to_set tv) = hotfix_targetb tv.
+Proof.
+  intro Hlf. destruct tv as [|v rest]; [reflexivity|]. unfold hotfix_targetb.
+  destruct (forallb (String.eqb v) rest) eqn:F.
+  - rewrite (to_set_all_eq v rest F). cbn [hf_target andb].
+    rewrite hf_filter_eq by (inversion Hlf; assumption). reflexivity.
+  - cbn [andb]. destruct (to_set (v :: rest)) as [|w [|w2 t2]] eqn:E; try reflexivity. exfalso.
+    assert (forallb (String.eqb v) rest = true) as F'.
+    { apply forallb_forall. intros y Hy. apply String.eqb_eq.
+      rewrite (to_set_single_inv _ _ E v (or_introl eq_refl)), (to_set_single_inv _ _ E y (or_intror Hy)).
+      reflexivity. }
+    rewrite F' in F. discriminate F.
+Qed.
+
+Lemma hotfix_targetb_some expected hv : hotfix_targetb expected = Some hv -> hotfix_versionb hv = true.
+Proof.
+  destruct expected as [|v rest]; cbn [hotfix_targetb]; [discriminate|].
+  destruct (forallb (String.eqb v) rest && hotfix_versionb v) eqn:E; [|discriminate].
+  intro H. injection H as <-. apply andb_true_iff in E as [_ E]. exact E.
+Qed.
+
+(* check_fix_versions raises exactly when the versions do not fit *)
+Lemma fix_versions_wrong_eq fix_versions tv : Forall lf_free fix_versions -> Forall lf_free tv ->
+  fix_versions_wrong fix_versions tv = negb (versions_fitb fix_versions tv).
+Proof.
+  intros Hf Ht. unfold fix_versions_wrong, versions_fitb. rewrite (hf_target_eq tv Ht).
+  assert (Hsets : set_eqb (filter vfilter_match (to_set fix_versions)) (to_set tv) =
+                  subset (filter unsuffixedb fix_versions) tv && subset tv (filter unsuffixedb fix_versions)).
+  { change (subset (filter unsuffixedb fix_versions) tv && subset tv (filter unsuffixedb fix_versions))
+      with (set_eqb (filter unsuffixedb fix_versions) tv).
+    apply bool_eq_iff. rewrite !set_eqb_iff.
+    assert (K : forall x, In x (filter vfilter_match (to_set fix_versions)) <-> In x (filter unsuffixedb fix_versions)).
+    { intro x. rewrite !filter_In, In_to_set. split; intros [Hin Hp]; (split; [exact Hin|]);
+        rewrite Forall_forall in Hf; [rewrite <- vfilter_eq | rewrite vfilter_eq]; auto. }
+    split; intros H x; [rewrite <- (K x), <- (In_to_set x tv) | rewrite (K x), (In_to_set x tv)]; apply H. }
+  destruct (hotfix_targetb tv) as [hv|] eqn:E.
+  - rewrite (hotfix_versionb_nonempty hv (hotfix_targetb_some tv hv E)). cbn [negb].
+    rewrite mem_to_set. reflexivity.
+  - rewrite Hsets. reflexivity.
+Qed.
+
+(* ------------------------------------------------------------------ the recognisers in Prop *)
+
+Lemma hotfix_targetb_iff expected hv : hotfix_targetb expected = Some hv <-> hotfix_target expected hv.
+Proof.
+  unfold hotfix_target. split.
+  - intro H. pose proof (hotfix_targetb_some expected hv H) as Hv.
+    destruct expected as [|v rest]; cbn [hotfix_targetb] in H; [discriminate H|].
+    destruct (forallb (String.eqb v) rest) eqn:F; cbn [andb] in H; [|discriminate H].
+    destruct (hotfix_versionb v); [|discriminate H]. injection H as <-.
+    split; [apply hotfix_versionb_iff; exact Hv|]. intro x. split.
+    + intros [<-|Hx]; [reflexivity|]. rewrite forallb_forall in F. symmetry. apply String.eqb_eq, F, Hx.
+    + intros ->. left; reflexivity.
+  - intros [Hv Hall]. destruct expected as [|v rest].
+    + exfalso. apply (proj2 (Hall hv) eq_refl).
+    + assert (v = hv) by (apply Hall; left; reflexivity). subst v. cbn [hotfix_targetb].
+      replace (forallb (String.eqb hv) rest) with true.
+      * apply hotfix_versionb_iff in Hv. rewrite Hv. reflexivity.
+      * symmetry. apply forallb_forall. intros y Hy. apply String.eqb_eq. symmetry. apply Hall. right; exact Hy.
+Qed.
+
+Lemma versions_fitb_iff fix_versions expected :
+  versions_fitb fix_versions expected = true <-> versions_fit fix_versions expected.
+Proof.
+  unfold versions_fitb, versions_fit. destruct (hotfix_targetb expected) as [hv|] eqn:E.
+  - rewrite mem_str_In. split.
+    + intro H. left. exists hv. split; [apply hotfix_targetb_iff; exact E | exact H].
+    + intros [(hv' & Ht & Hin)|[Hno _]].
+      * apply hotfix_targetb_iff in Ht. rewrite E in Ht. injection Ht as ->. exact Hin.
+      * exfalso. apply (Hno hv). apply hotfix_targetb_iff. exact E.
+  - change (subset (filter unsuffixedb fix_versions) expected && subset expected (filter unsuffixedb fix_versions))
+      with (set_eqb (filter unsuffixedb fix_versions) expected).
+    rewrite set_eqb_iff. split.
+    + intro H. right. split.
+      * intros hv Ht. apply hotfix_targetb_iff in Ht. rewrite E in Ht. discriminate Ht.
+      * intro x. rewrite <- H, filter_In, unsuffixedb_iff. tauto.
+    + intros [(hv & Ht & _)|[_ H]].
+      * apply hotfix_targetb_iff in Ht. rewrite E in Ht. discriminate Ht.
+      * intro x. rewrite H, filter_In, unsuffixedb_iff. tauto.
+Qed.
+
+(* ================================================================== the source branch *)
+
+(* what the gate reads from a feature branch: a prefix, and a ticket (non-empty key with its project) or none *)
+Definition feature_shaped (a : branch_info) : Prop :=
+  bi_class a = FeatureBranch /\ (exists p, bi_prefix a = Some p) /\
+  ((bi_jira_issue_key a = None /\ bi_jira_project a = None) \/
+   (exists key proj, bi_jira_issue_key a = Some key /\ bi_jira_project a = Some proj /\ is_empty key = false)).
+
+Lemma first_some_in {A B} (l : list A) (f : A -> option B) y :
+  first_some l f = Some y -> exists x, In x l /\ f x = Some y.
+Proof.
+  induction l as [|x r IH]; cbn [first_some]; intro H; [discriminate H|].
+  destruct (f x) as [z|] eqn:E.
+  - injection H as ->. exists x. split; [left; reflexivity | exact E].
+  - destruct (IH H) as (x' & Hin & Hx'). exists x'. split; [right; exact Hin | exact Hx'].
+Qed.
+
+Lemma match_class_class k s a : match_class k s = Some a -> bi_class a = k.
+Proof.
+  destruct k; cbn [match_class]; unfold scan_versioned, scan_labelled, scan_integration_tail; intro H;
+    repeat match type of H with
+           | option_map _ ?x = Some _ => destruct x eqn:?; cbn [option_map] in H; [|discriminate H]
+           | match ?x with _ => _ end = Some _ => destruct x eqn:?; try discriminate H
+           end;
+    injection H as <-; reflexivity.
+Qed.
+
+Lemma upper_nonempty s : is_empty s = false -> is_empty (upper s) = false.
+Proof. destruct s; [discriminate | reflexivity]. Qed.
+
+Lemma scan_ticket_key l t : scan_ticket l = Some t -> is_empty (fst t) = false.
+Proof.
+  unfold scan_ticket. destruct (span is_word l) as [proj r1]. destruct (is_empty proj); [discriminate|].
+  destruct r1 as [|c r2]; [discriminate|]. destruct (c =? "-")%char; [|discriminate].
+  destruct (span is_digit r2) as [num r3]. destruct (is_empty num); [discriminate|].
+  intro H. injection H as <-. cbn [fst]. destruct proj; reflexivity.
+Qed.
+
+Lemma scan_feature_ticket s f : scan_feature s = Some f -> fp_ticket f = scan_ticket (fp_label f).
+Proof.
+  unfold scan_feature. destruct (split_first "/" s) as [[p rest]|]; [|discriminate].
+  destruct (mem_str p _); [|discriminate]. destruct (scan_line rest); [|discriminate].
+  intro H. injection H as <-. reflexivity.
+Qed.
+
+(* every name the factory makes a FeatureBranch has this shape *)
+Lemma classify_feature_shaped s a : classify s = Some a -> bi_class a = FeatureBranch -> feature_shaped a.
+Proof.
+  intros Hc Hk. unfold classify in Hc. apply first_some_in in Hc as (k & _ & Hm).
+  pose proof (match_class_class k s a Hm) as Hk'. rewrite Hk in Hk'. subst k.
+  cbn [match_class] in Hm. destruct (scan_feature s) as [f|] eqn:F; [|discriminate Hm].
+  cbn [option_map] in Hm. injection Hm as <-. split; [reflexivity|]. split; [eexists; reflexivity|].
+  cbn [mk_feature_like bi_jira_issue_key bi_jira_project].
+  pose proof (scan_feature_ticket s f F) as Ht. destruct (fp_ticket f) as [t|]; [|left; split; reflexivity].
+  right. cbn [option_map]. eexists. eexists. split; [reflexivity|]. split; [reflexivity|].
+  apply upper_nonempty. apply (scan_ticket_key (fp_label f)). symmetry. exact Ht.
+Qed.
+
+(* ================================================================== the gate *)
+
+(* what a caller observes: the exception classes are the five messages of the statement; a re-raised
+   JIRAError and an AttributeError are outside it *)
+Definition verdict_of (o : outcome) : option verdict :=
+  match o with
+  | Ok => Some Admit
+  | MissingJiraId _ => Some (Refuse NoTicket)
+  | JiraIssueNotFound => Some (Refuse TicketNotFound)
+  | IncorrectJiraProject => Some (Refuse WrongProject)
+  | IssueTypeNotSupported => Some (Refuse WrongIssueType)
+  | IncorrectFixVersion => Some (Refuse WrongFixVersions)
+  | JIRAErrorReraised | AttributeErr => None
+  end.
+
+(* a Jira server that holds the tickets and answers 404 for anything else *)
+Definition server (tickets : list (string * issue)) : list (string * answer) :=
+  map (fun t => (fst t, Found (snd t))) tickets.
+
+Definition tickets_lf_free (tickets : list (string * issue)) : Prop :=
+  Forall (fun t => Forall lf_free (iss_fix_versions (snd t))) tickets.
+
+Lemma lookup_server key tickets :
+  lookup key (server tickets) =
+  match find_ticket key tickets with Some i => Found i | None => Failure 404 end.
+Proof.
+  induction tickets as [|[k i] t IH]; [reflexivity|]. cbn [server map lookup find_ticket fst snd].
+  destruct (k =? key)%string; [reflexivity | exact IH].
+Qed.
+
+Lemma find_ticket_in key tickets i : find_ticket key tickets = Some i -> exists k, In (k, i) tickets.
+Proof.
+  induction tickets as [|[k j] t IH]; cbn [find_ticket]; intro H; [discriminate H|].
+  destruct (k =? key)%string.
+  - injection H as ->. exists k. left; reflexivity.
+  - destruct (IH H) as (k' & Hin). exists k'. right; exact Hin.
+Qed.
+
+Lemma is_empty_eqb s : (s =? "")%string = is_empty s.
+Proof. destruct s; reflexivity. Qed.
+
+Lemma configured_eq cfg : jira_configured cfg = configured cfg.
+Proof.
+  unfold jira_configured, configured. rewrite !is_empty_eqb.
+  destruct (s_jira_keys cfg); reflexivity.
+Qed.
+
+Lemma feature_groups :
+  class_has_group FeatureBranch "prefix" = true /\ class_has_group FeatureBranch "jira_issue_key" = true /\
+  class_has_group FeatureBranch "jira_project" = true.
+Proof. repeat split; vm_compute; reflexivity. Qed.
+
+Lemma first_refusing_none flags i : first_refusing flags i = None <-> forallb (fun b => b) flags = true.
+Proof.
+  revert i. induction flags as [|b t IH]; intro i; cbn [first_refusing forallb]; [tauto|].
+  destruct b; cbn [andb]; [apply IH | split; discriminate].
+Qed.
+
+Lemma no_reference_spec flags :
+  verdict_of (no_reference flags) = Some (if forallb (fun b => b) flags then Admit else Refuse NoTicket).
+Proof.
+  unfold no_reference. destruct (first_refusing flags 0) as [i|] eqn:E.
+  - destruct (forallb (fun b => b) flags) eqn:F; [|reflexivity].
+    apply (first_refusing_none flags 0) in F. rewrite F in E. discriminate E.
+  - apply first_refusing_none in E. rewrite E. reflexivity.
+Qed.
+
+Lemma mem_map_fst x (l : list (string * string)) :
+  mem_str x (map fst l) = existsb (fun p => (fst p =? x)%string) l.
+Proof.
+  induction l as [|p t IH]; [reflexivity|]. unfold mem_str in *. cbn [map existsb].
+  rewrite IH, String.eqb_sym. reflexivity.
+Qed.
+
+Lemma type_check_eq cfg i :
+  negb (match s_prefixes cfg with [] => true | _ => false end)
+  && negb (mem_str (iss_type i) (map fst (s_prefixes cfg))) = negb (type_configured cfg i).
+Proof.
+  unfold type_configured. rewrite mem_map_fst. destruct (s_prefixes cfg); reflexivity.
+Qed.
+
+(* MAIN: for every settings value, feature branch, target flags, expected versions and ticket table,
+   the gate of the code answers what the statement prescribes *)
+Theorem gate_meets_spec cfg a flags expected tickets :
+  feature_shaped a -> Forall lf_free expected -> tickets_lf_free tickets ->
+  verdict_of (jira_checks_flags cfg a flags expected (server tickets)) =
+  Some (spec cfg a flags expected tickets).
+Proof.
+  intros (Hc & (p & Hp) & Hk) Hexp Htk. destruct feature_groups as (G1 & G2 & G3).
+  unfold jira_checks_flags, spec, gate_applies, attr. rewrite bypass_value, Hc, G1, G2.
+  destruct (bypassed cfg); [reflexivity|]. cbn [negb andb].
+  replace (opt_in (bi_prefix a) (s_bypass_prefixes cfg)) with (prefix_bypassed cfg a)
+    by (unfold prefix_bypassed, opt_in; reflexivity).
+  destruct (prefix_bypassed cfg a); [reflexivity|]. cbn [negb andb].
+  rewrite configured_eq. destruct (configured cfg); [|reflexivity]. cbn [negb].
+  unfold named_ticket. destruct Hk as [[Hk Hpj]|(key & proj & Hk & Hpj & Hne)]; rewrite Hk; try rewrite Hpj.
+  - apply no_reference_spec.
+  - rewrite Hne. unfold with_reference, attr. rewrite lookup_server, Hc, G3, Hpj.
+    destruct (find_ticket key tickets) as [i|] eqn:F; [|reflexivity].
+    cbn [opt_in]. unfold project_configured.
+    destruct (mem_str proj (s_jira_keys cfg)); [|reflexivity]. cbn [negb].
+    rewrite type_check_eq. destruct (type_configured cfg i); [|reflexivity]. cbn [negb].
+    destruct (s_disable_version_checks cfg); [reflexivity|]. cbn [negb andb].
+    rewrite fix_versions_wrong_eq.
+    + destruct (versions_fitb (iss_fix_versions i) expected); reflexivity.
+    + destruct (find_ticket_in key tickets i F) as (k & Hin).
+      unfold tickets_lf_free in Htk. rewrite Forall_forall in Htk. exact (Htk (k, i) Hin).
+    + exact Hexp.
+Qed.
+
+(* with the destination branches given by their classes *)
+Corollary gate_meets_spec_classes cfg a targets expected tickets :
+  feature_shaped a -> Forall lf_free expected -> tickets_lf_free tickets ->
+  verdict_of (jira_checks cfg a targets expected (server tickets)) =
+  Some (spec cfg a (map ticketless targets) expected tickets).
+Proof. intros. unfold jira_checks. apply gate_meets_spec; assumption. Qed.
+
+(* from the NAME of the source branch: every string the factory classifies as a feature branch *)
+Corollary gate_meets_spec_name cfg src a targets expected tickets :
+  classify src = Some a -> bi_class a = FeatureBranch ->
+  Forall lf_free expected -> tickets_lf_free tickets ->
+  option_map verdict_of (jira_checks_name cfg src targets expected (server tickets)) =
+  Some (Some (spec cfg a (map ticketless targets) expected tickets)).
+Proof.
+  intros Hc Hk He Ht. unfold jira_checks_name. rewrite Hc. cbn [option_map]. f_equal.
+  apply gate_meets_spec_classes; [exact (classify_feature_shaped src a Hc Hk) | exact He | exact Ht].
+Qed.
+
+(* ------------------------------------------------------------------ "exactly when" *)
+
+Lemma forallb_id_iff l : forallb (fun b : bool => b) l = true <-> forall b, In b l -> b = true.
+Proof. rewrite forallb_forall. tauto. Qed.
+
+Lemma find_ticket_none_or key tickets : {i | find_ticket key tickets = Some i} + {find_ticket key tickets = None}.
+Proof. destruct (find_ticket key tickets) as [i|]; [left; exists i; reflexivity | right; reflexivity]. Qed.
+
+Lemma type_configured_iff cfg i :
+  type_configured cfg i = true <-> (s_prefixes cfg = [] \/ In (iss_type i) (map fst (s_prefixes cfg))).
+Proof.
+  unfold type_configured. destruct (s_prefixes cfg) as [|p t] eqn:E.
+  - split; [left; reflexivity | reflexivity].
+  - rewrite <- mem_map_fst, mem_str_In. split; [intro H; right; exact H | intros [H|H]; [discriminate H | exact H]].
+Qed.
+
+Theorem spec_admit_iff cfg a accepts expected tickets :
+  spec cfg a accepts expected tickets = Admit <-> admitted cfg a accepts expected tickets.
+Proof.
+  unfold spec, admitted, gate_applies, fits.
+  destruct (bypassed cfg); [split; [intros _; left; reflexivity | reflexivity]|].
+  destruct (prefix_bypassed cfg a); [split; [intros _; right; left; reflexivity | reflexivity]|].
+  destruct (configured cfg); [|split; [intros _; right; right; left; reflexivity | reflexivity]].
+  cbn [negb andb].
+  assert (R : forall P : Prop, (P <-> (false = true \/ false = true \/ true = false \/ P))).
+  { intro P. split; [intro H; right; right; right; exact H|].
+    intros [H|[H|[H|H]]]; try discriminate H. exact H. }
+  rewrite <- R. clear R.
+  destruct (named_ticket a) as [[key project]|].
+  - destruct (find_ticket key tickets) as [i|] eqn:F.
+    + unfold project_configured.
+      destruct (mem_str project (s_jira_keys cfg)) eqn:P; cbn [negb].
+      * destruct (type_configured cfg i) eqn:T; cbn [negb].
+        -- destruct (s_disable_version_checks cfg) eqn:D; cbn [negb andb].
+           ++ split; [|reflexivity]. intros _. exists i. repeat split.
+              ** apply mem_str_In; exact P.
+              ** apply type_configured_iff; exact T.
+              ** left; reflexivity.
+           ++ destruct (versions_fitb (iss_fix_versions i) expected) eqn:V; cbn [negb].
+              ** split; [|reflexivity]. intros _. exists i. repeat split.
+                 --- apply mem_str_In; exact P.
+                 --- apply type_configured_iff; exact T.
+                 --- right. apply versions_fitb_iff; exact V.
+              ** split; [discriminate|]. intros (j & Hj & _ & _ & [Hd|Hv]); [discriminate Hd|].
+                 injection Hj as <-. apply versions_fitb_iff in Hv. rewrite Hv in V. discriminate V.
+        -- split; [discriminate|]. intros (j & Hj & _ & Ht & _). injection Hj as <-.
+           apply type_configured_iff in Ht. rewrite Ht in T. discriminate T.
+      * split; [discriminate|]. intros (j & _ & Hp & _). apply mem_str_In in Hp. rewrite Hp in P. discriminate P.
+    + split; [discriminate|]. intros (j & Hj & _). discriminate Hj.
+  - rewrite <- forallb_id_iff. destruct (forallb (fun b => b) accepts); split; try reflexivity; discriminate.
+Qed.
+
+(* a refusal names a requirement that really fails *)
+Theorem spec_refusal_sound cfg a accepts expected tickets r :
+  spec cfg a accepts expected tickets = Refuse r ->
+  bypassed cfg = false /\ prefix_bypassed cfg a = false /\ configured cfg = true /\
+  match r with
+  | NoTicket => named_ticket a = None /\ exists b, In b accepts /\ b = false
+  | TicketNotFound => exists key project, named_ticket a = Some (key, project) /\ find_ticket key tickets = None
+  | WrongProject => exists key project, named_ticket a = Some (key, project) /\ ~ In project (s_jira_keys cfg)
+  | WrongIssueType => exists key project i, named_ticket a = Some (key, project) /\
+                        find_ticket key tickets = Some i /\ s_prefixes cfg <> [] /\
+                        ~ In (iss_type i) (map fst (s_prefixes cfg))
+  | WrongFixVersions => exists key project i, named_ticket a = Some (key, project) /\
+                        find_ticket key tickets = Some i /\ s_disable_version_checks cfg = false /\
+                        ~ versions_fit (iss_fix_versions i) expected
+  end.
+Proof.
+  unfold spec, gate_applies.
+  destruct (bypassed cfg); [discriminate|]. destruct (prefix_bypassed cfg a); [discriminate|].
+  destruct (configured cfg); [|discriminate]. cbn [negb andb]. intro H.
+  split; [reflexivity|]. split; [reflexivity|]. split; [reflexivity|].
+  destruct (named_ticket a) as [[key project]|].
+  - destruct (find_ticket key tickets) as [i|] eqn:F.
+    + unfold project_configured in H.
+      destruct (mem_str project (s_jira_keys cfg)) eqn:P; cbn [negb] in H.
+      * destruct (type_configured cfg i) eqn:T; cbn [negb] in H.
+        -- destruct (s_disable_version_checks cfg) eqn:D; cbn [negb andb] in H; [discriminate H|].
+           destruct (versions_fitb (iss_fix_versions i) expected) eqn:V; cbn [negb] in H; [discriminate H|].
+           injection H as <-. exists key, project, i.
+           split; [reflexivity|]. split; [exact F|]. split; [reflexivity|].
+           intro Hv. apply versions_fitb_iff in Hv. rewrite Hv in V. discriminate V.
+        -- injection H as <-. exists key, project, i.
+           split; [reflexivity|]. split; [exact F|]. split.
+           ++ intro E. assert (type_configured cfg i = true) as T' by (apply type_configured_iff; left; exact E).
+              rewrite T' in T. discriminate T.
+           ++ intro E. assert (type_configured cfg i = true) as T' by (apply type_configured_iff; right; exact E).
+              rewrite T' in T. discriminate T.
+      * injection H as <-. exists key, project. split; [reflexivity|].
+        intro Hp. apply mem_str_In in Hp. rewrite Hp in P. discriminate P.
+    + injection H as <-. exists key, project. split; [reflexivity | exact F].
+  - destruct (forallb (fun b => b) accepts) eqn:A; [discriminate H|]. injection H as <-. split; [reflexivity|].
+    clear - A. induction accepts as [|b t IH]; [discriminate A|]. cbn [forallb] in A.
+    destruct b; cbn [andb] in A.
+    + destruct (IH A) as (b & Hb & Eb). exists b. split; [right; exact Hb | exact Eb].
+    + exists false. split; [left; reflexivity | reflexivity].
+Qed.
+
+(* ================================================================== outside the statement, said explicitly *)
+
+(* a server failure other than 404 is re-raised as it is; an explicit 404 is "not found" *)
+Lemma gate_server_failure cfg a flags expected db key proj status :
+  feature_shaped a -> gate_applies cfg a = true ->
+  bi_jira_issue_key a = Some key -> bi_jira_project a = Some proj -> lookup key db = Failure status ->
+  jira_checks_flags cfg a flags expected db =
+  if (status =? 404)%Z then JiraIssueNotFound else JIRAErrorReraised.
+Proof.
+  intros (Hc & (p & Hp) & Hk) Hg Hkey Hproj Hl. destruct feature_groups as (G1 & G2 & G3).
+  unfold gate_applies in Hg. apply andb_true_iff in Hg as [Hg Hconf]. apply andb_true_iff in Hg as [Hb Hpb].
+  apply negb_true_iff in Hb, Hpb.
+  unfold jira_checks_flags, attr. rewrite bypass_value, Hb, Hc, G1, G2.
+  replace (opt_in (bi_prefix a) (s_bypass_prefixes cfg)) with (prefix_bypassed cfg a)
+    by (unfold prefix_bypassed, opt_in; reflexivity).
+  rewrite Hpb, configured_eq, Hconf, Hkey. cbn [negb].
+  destruct Hk as [[Hk _]|(key' & proj' & Hk & _ & Hne)]; rewrite Hkey in Hk; [discriminate Hk|].
+  injection Hk as <-. rewrite Hne. unfold with_reference. rewrite Hl. reflexivity.
+Qed.
+
+(* a source branch whose class has no prefix (anything but feature / w / q/w names) makes the gate crash
+   unless it is bypassed: _handle_pull_request never gets there with such a source *)
+Lemma gate_needs_prefix cfg a flags expected db :
+  class_has_group (bi_class a) "prefix" = false -> bypassed cfg = false ->
+  jira_checks_flags cfg a flags expected db = AttributeErr.
+Proof.
+  intros Hg Hb. unfold jira_checks_flags, attr. rewrite bypass_value, Hb, Hg. reflexivity.
+Qed.
+
+(* expected versions that are one name which is neither x.y.z[.0] nor x.y.z.n can never be matched:
+   this is what happens for a hotfix branch without any tag of its patch (C09: x.y.z.-1) *)
+Lemma odd_expected_never_fits fix_versions v :
+  ~ unsuffixed v -> ~ hotfix_version v -> ~ versions_fit fix_versions [v].
+Proof.
+  intros Hu Hh [(hv & [Hhv Hall] & _)|[_ Hall]].
+  - assert (v = hv) by (apply Hall; left; reflexivity). subst hv. exact (Hh Hhv).
+  - destruct (proj1 (Hall v) (or_introl eq_refl)) as [_ H]. exact (Hu H).
+Qed.
+
+(* ------------------------------------------------------------------ what "$" does: one final line feed *)
+
+Lemma sapp_inv_lf a b : a ++ String LF "" = b ++ String LF "" -> a = b.
+Proof.
+  revert b. induction a as [|c a IH]; intros [|d b] H; cbn [append] in H.
+  - reflexivity.
+  - injection H as _ H. destruct b; discriminate H.
+  - injection H as _ H. destruct a; discriminate H.
+  - injection H as -> H. rewrite (IH b H). reflexivity.
+Qed.
+
+Lemma version_lf_free v cs : version v cs -> lf_free v.
+Proof. intro H. apply (version_no_char v cs LF H); [reflexivity | discriminate]. Qed.
+
+Lemma unsuffixed_forms s : unsuffixed s <->
+  exists x y z, number x /\ number y /\ number z /\
+                (s = x ++ "." ++ y ++ "." ++ z \/ s = x ++ "." ++ y ++ "." ++ z ++ ".0").
+Proof.
+  split.
+  - intros (cs & Hv & Hl). inversion Hv as [x Hx|x y Hx Hy|x y z Hx Hy Hz|x y z n Hx Hy Hz Hn]; subst;
+      cbn [List.length nth_error] in Hl; destruct Hl as [Hl|[Hl Hn0]]; try discriminate Hl.
+    + exists x, y, z. repeat split; try assumption. left; reflexivity.
+    + injection Hn0 as ->. exists x, y, z. repeat split; try assumption. right; reflexivity.
+  - intros (x & y & z & Hx & Hy & Hz & [->| ->]).
+    + exists [x; y; z]. split; [exact (V3 x y z Hx Hy Hz) | left; reflexivity].
+    + exists [x; y; z; "0"]. split; [exact (V4 x y z "0" Hx Hy Hz number_zero) | right; split; reflexivity].
+Qed.
+
+Ltac snorm := repeat rewrite sapp_assoc; cbn [append]; repeat rewrite sapp_assoc; cbn [append].
+
+Lemma vfilter_trailing_lf s : lf_free s -> vfilter_match (s ++ String LF "") = vfilter_match s.
+Proof.
+  intro Hlf. apply bool_eq_iff. rewrite (vfilter_unsuffixed s Hlf), unsuffixed_forms. unfold vfilter_match. split.
+  - destruct (scan_xyz (s ++ String LF "")) as [r|] eqn:E; [|discriminate].
+    apply scan_xyz_some in E as (x & y & z & Hx & Hy & Hz & Es & _). intro H.
+    exists x, y, z. repeat split; try assumption.
+    assert (Hxyz : lf_free (x ++ "." ++ y ++ "." ++ z)) by (apply (version_lf_free _ [x; y; z]), V3; assumption).
+    assert (Hxyz0 : lf_free (x ++ "." ++ y ++ "." ++ z ++ ".0"))
+      by (apply (version_lf_free _ [x; y; z; "0"]), V4; try assumption; reflexivity).
+    assert (Hlast : forall w, lf_free w -> s ++ String LF "" = w ++ "" -> False).
+    { intros w Hw Ew. rewrite sapp_nil_r in Ew. unfold lf_free in Hw. rewrite <- Ew, has_char_app in Hw.
+      cbn in Hw. rewrite orb_true_r in Hw. discriminate Hw. }
+    apply orb_true_iff in H as [H|H].
+    + right. destruct (strip_prefix ".0" r) as [r'|] eqn:S; [|discriminate H].
+      apply strip_prefix_some in S. subst r.
+      destruct r' as [|c [|d t]]; cbn [at_end] in H; try discriminate H.
+      * exfalso. apply (Hlast _ Hxyz0). rewrite Es. snorm. reflexivity.
+      * apply Ascii.eqb_eq in H. subst c. apply sapp_inv_lf. rewrite Es. snorm. reflexivity.
+    + left. destruct r as [|c [|d t]]; cbn [at_end] in H; try discriminate H.
+      * exfalso. apply (Hlast _ Hxyz). rewrite Es. snorm. reflexivity.
+      * apply Ascii.eqb_eq in H. subst c. apply sapp_inv_lf. rewrite Es. snorm. reflexivity.
+  - intros (x & y & z & Hx & Hy & Hz & [->| ->]).
+    + replace ((x ++ "." ++ y ++ "." ++ z) ++ String LF "") with (x ++ "." ++ y ++ "." ++ z ++ String LF "")
+        by (snorm; reflexivity).
+      rewrite (scan_xyz_app x y z (String LF "") Hx Hy Hz eq_refl). reflexivity.
+    + replace ((x ++ "." ++ y ++ "." ++ z ++ ".0") ++ String LF "")
+        with (x ++ "." ++ y ++ "." ++ z ++ String "." (String "0" (String LF "")))
+        by (snorm; reflexivity).
+      rewrite (scan_xyz_app x y z _ Hx Hy Hz (stops_dot _)). reflexivity.
+Qed.
+
+(* ------------------------------------------------------------------ today's flags *)
+
+(* no branch class accepts ticketless pull requests (Facts_C11.ticketless_flags): with the gate on, a
+   ticket is mandatory whatever the targets are *)
+Lemma no_class_accepts_ticketless k : ticketless k = false.
+Proof. destruct k; vm_compute; reflexivity. Qed.
+
+Lemma ticket_mandatory_today cfg a targets expected db :
+  feature_shaped a -> gate_applies cfg a = true -> named_ticket a = None -> targets <> [] ->
+  jira_checks cfg a targets expected db = MissingJiraId 0.
+Proof.
+  intros (Hc & (p & Hp) & Hk) Hg Hn Ht. destruct feature_groups as (G1 & G2 & _).
+  unfold gate_applies in Hg. apply andb_true_iff in Hg as [Hg Hconf]. apply andb_true_iff in Hg as [Hb Hpb].
+  apply negb_true_iff in Hb, Hpb.
+  unfold jira_checks, jira_checks_flags, attr. rewrite bypass_value, Hb, Hc, G1, G2.
+  replace (opt_in (bi_prefix a) (s_bypass_prefixes cfg)) with (prefix_bypassed cfg a)
+    by (unfold prefix_bypassed, opt_in; reflexivity).
+  rewrite Hpb, configured_eq, Hconf. cbn [negb].
+  assert (Hkey : bi_jira_issue_key a = None).
+  { destruct Hk as [[Hk _]|(key & proj & Hk & Hpj & _)]; [exact Hk|].
+    unfold named_ticket in Hn. rewrite Hk, Hpj in Hn. discriminate Hn. }
+  rewrite Hkey. destruct targets as [|k t]; [contradiction Ht; reflexivity|].
+  unfold no_reference. cbn [map first_refusing]. rewrite no_class_accepts_ticketless. reflexivity.
+Qed.
+
+(* ================================================================== non-vacuity: concrete runs *)
+
+Definition ex_cfg : settings :=
+  {| s_bypass_comment := false; s_bypass_cmdline := false; s_bypass_author := false;
+     s_bypass_prefixes := ["dependabot"];
+     s_jira_keys := ["PROJ"; "OPS_2"]; s_jira_email := "bot@example.org"; s_jira_account_url := "https://jira";
+     s_prefixes := [("Bug", "bugfix"); ("Story", "feature")];
+     s_disable_version_checks := false |}.
+
+Definition ex_tickets : list (string * issue) :=
+  [("PROJ-12", mkIssue "PROJ-12" "Bug" ["4.0.1"; "5.1.0_hf7"; "10.0.0"; "4.0.1.3"]);
+   ("PROJ-13", mkIssue "PROJ-13" "Epic" ["4.0.1"; "10.0.0"]);
+   ("PROJ-14", mkIssue "PROJ-14" "Story" ["4.0.1"; "4.0.1.0"; "10.0.0"]);
+   ("PROJ-15", mkIssue "PROJ-15" "Bug" ["4.0.1.2"; "whatever"]);
+   ("OTHER-1", mkIssue "OTHER-1" "Bug" ["4.0.1"; "10.0.0"])].
+
+Definition ex_devs : list bclass := [DevelopmentBranch; DevelopmentBranch].
+
+Definition ex_run (src : string) (targets : list bclass) (expected : list string) : option outcome :=
+  jira_checks_name ex_cfg src targets expected (server ex_tickets).
+
+(* the hypotheses of the main theorem hold for these inputs *)
+Example ex_hypotheses :
+  (exists a, classify "bugfix/proj-12-fix" = Some a /\ bi_class a = FeatureBranch /\
+             bi_jira_issue_key a = Some "PROJ-12" /\ bi_jira_project a = Some "PROJ") /\
+  Forall lf_free ["4.0.1"; "10.0.0"] /\ tickets_lf_free ex_tickets.
+Proof.
+  split; [eexists; split; [vm_compute; reflexivity | repeat split]|].
+  split; repeat constructor.
+Qed.
+
+(* lower-case key, suffixed and x.y.z.n versions ignored: admitted *)
+Example ex_admit : ex_run "bugfix/proj-12-fix" ex_devs ["4.0.1"; "10.0.0"] = Some Ok.
+Proof. vm_compute. reflexivity. Qed.
+
+Example ex_missing_id : ex_run "bugfix/no-ticket-here" ex_devs ["4.0.1"; "10.0.0"] = Some (MissingJiraId 0).
+Proof. vm_compute. reflexivity. Qed.
+
+Example ex_not_found : ex_run "bugfix/PROJ-99-x" ex_devs ["4.0.1"; "10.0.0"] = Some JiraIssueNotFound.
+Proof. vm_compute. reflexivity. Qed.
+
+Example ex_wrong_project : ex_run "bugfix/OTHER-1-x" ex_devs ["4.0.1"; "10.0.0"] = Some IncorrectJiraProject.
+Proof. vm_compute. reflexivity. Qed.
+
+Example ex_wrong_type : ex_run "feature/PROJ-13" ex_devs ["4.0.1"; "10.0.0"] = Some IssueTypeNotSupported.
+Proof. vm_compute. reflexivity. Qed.
+
+(* x.y.z.0 is kept by the filter and is not expected *)
+Example ex_wrong_versions : ex_run "feature/PROJ-14_x" ex_devs ["4.0.1"; "10.0.0"] = Some IncorrectFixVersion.
+Proof. vm_compute. reflexivity. Qed.
+
+(* hotfix target: the hotfix version is listed, the rest is not looked at *)
+Example ex_hotfix_listed : ex_run "bugfix/PROJ-15" [HotfixBranch] ["4.0.1.2"] = Some Ok.
+Proof. vm_compute. reflexivity. Qed.
+
+Example ex_hotfix_missing : ex_run "bugfix/PROJ-12" [HotfixBranch] ["4.0.1.2"] = Some IncorrectFixVersion.
+Proof. vm_compute. reflexivity. Qed.
+
+(* a bypassed prefix passes without a ticket *)
+Example ex_prefix_bypassed : ex_run "dependabot/npm/foo-1.2" ex_devs ["4.0.1"] = Some Ok.
+Proof. vm_compute. reflexivity. Qed.
+
+(* hotfix branch without a tag: "4.0.1.-1" is expected and can never be matched, whatever the issue lists *)
+Example ex_untagged_hotfix fix_versions : ~ versions_fit fix_versions ["4.0.1.-1"].
+Proof.
+  apply odd_expected_never_fits.
+  - intro H. apply unsuffixedb_iff in H. vm_compute in H. discriminate H.
+  - intro H. apply hotfix_versionb_iff in H. vm_compute in H. discriminate H.
+Qed.
+
+(* the hypothesis "no line feed" matters: the code keeps "4.0.1\n" (as a name different from "4.0.1") *)
+Example ex_lf_kept :
+  vfilter_match ("4.0.1" ++ String LF "") = true /\ unsuffixedb ("4.0.1" ++ String LF "") = false.
+Proof. split; vm_compute; reflexivity. Qed.
+
+(* a source that is not a feature branch and no bypass: AttributeError *)
+Example ex_not_a_feature : ex_run "development/4.0" ex_devs ["4.0.1"] = Some AttributeErr.
+Proof. vm_compute. reflexivity. Qed.
